@@ -136,6 +136,29 @@ type hist struct {
 	// ids carried by stale activations (ActivateChainReferenceID with a version not above the active
 	// one: chain info untouched, event published, open batches re-issued for the event's id)
 	staleTids []string
+
+	// keys a validator had registered and replaced since (per chain): the valset snapshot is rebuilt
+	// only every 50 blocks and still shows them
+	retired, retiredB []int
+}
+
+// registeredNow: does validator v have eth address a registered for chain in the LIVE registry.
+func (h *hist) registeredNow(v int, chain, a string) bool {
+	all, err := h.in.ValsetKeeper.GetAllChainInfos(h.ctx)
+	if err != nil {
+		h.t.Fatal(err)
+	}
+	for _, va := range all {
+		if !va.Address.Equals(keeper.ValAddrs[v]) {
+			continue
+		}
+		for _, ci := range va.ExternalChainInfo {
+			if ci.ChainReferenceID == chain && strings.EqualFold(ci.Address, a) {
+				return true
+			}
+		}
+	}
+	return false
 }
 
 // checkpointTid finds the deployment id (the one in force, or one carried by a stale activation)
@@ -916,6 +939,12 @@ func (h *hist) opSetReg() {
 	}
 	oldA, oldB := h.regKey[v], h.regKeyB[v]
 	onB := h.r.Intn(3) == 0
+	// another validator takes over a key somebody retired
+	if onB && len(h.retiredB) > 0 && h.r.Intn(3) == 0 {
+		key = h.retiredB[h.r.Intn(len(h.retiredB))]
+	} else if !onB && len(h.retired) > 0 && h.r.Intn(3) == 0 {
+		key = h.retired[h.r.Intn(len(h.retired))]
+	}
 	if onB {
 		h.regKeyB[v] = key
 	} else {
@@ -924,6 +953,12 @@ func (h *hist) opSetReg() {
 	err := h.register(v)
 	if err != nil {
 		h.regKey[v], h.regKeyB[v] = oldA, oldB
+	} else if onB && oldB != key {
+		h.retiredB = append(h.retiredB, oldB)
+		h.run.Count("key-rotation", "chain-b")
+	} else if !onB && oldA != key {
+		h.retired = append(h.retired, oldA)
+		h.run.Count("key-rotation", "test-chain")
 	}
 	h.run.Count("op", "re-register")
 	h.run.Count("re-register-ok", fmt.Sprint(err == nil))
@@ -1020,8 +1055,19 @@ func (h *hist) opEvidence() {
 				key = h.regKeyB[h.r.Intn(5)]
 			}
 		}
+		kind = "signed-variant"
+		// a key its validator has replaced since (between two snapshot builds): a never-issued batch
+		ret := h.retired
+		if mchain == 2 {
+			ret = h.retiredB
+		}
+		if len(ret) > 0 && h.r.Intn(3) == 0 {
+			key = ret[h.r.Intn(len(ret))]
+			s.BatchNonce += 300
+			kind = "signed-with-retired-key"
+		}
 		tr, cp := h.tripleOf(s, tid)
-		subj, sig, kind = s, h.sign(key, cp), "signed-variant"
+		subj, sig = s, h.sign(key, cp)
 		sgTerm = fmt.Sprintf("(%d, %s)", key, tr.coq())
 	case p < 88: // signature over bytes that are no checkpoint
 		s, ok := h.anySubject()
@@ -1079,6 +1125,16 @@ func (h *hist) opEvidence() {
 	for _, v := range after {
 		if !has(before, v) {
 			h.sawJail = true
+			// whoever is jailed has the recovered address registered for that chain NOW (live
+			// registry, at the time of the evidence message) -- not in some older snapshot
+			rs := strings.TrimPrefix(sig, "0x")
+			if sb, err := hex.DecodeString(rs); err == nil {
+				if a, err := types.EthAddressFromSignature(scp, sb); err == nil && !h.registeredNow(v, chain, a.GetAddress().Hex()) {
+					violate(h.run, "C13:jailed-for-a-key-it-has-not-registered",
+						fmt.Sprintf("validator %d jailed by evidence whose signature recovers to %s, an address it does not have registered for %s at the time of the evidence", v, a.GetAddress().Hex(), chain),
+						map[string]any{"kind": "evidence-history", "history": h.replay, "subject": subj, "signature": sig, "chain": chain, "recovered": a.GetAddress().Hex()})
+				}
+			}
 			if h.issued[hex.EncodeToString(scp)] {
 				violate(h.run, h.vid("C13:jailed-for-issued-checkpoint"),
 					fmt.Sprintf("validator %d jailed by evidence whose checkpoint the chain had published", v),
